@@ -52,7 +52,7 @@ fn import_sets() -> Vec<Vec<usize>> {
     v
 }
 
-struct Config {
+pub struct Config {
     imports: Vec<usize>,
     decls: usize,    // bitmask over DECLS
     foo_kind: usize, // 0 absent 1 interface 2 parcelable 3 enum
@@ -113,7 +113,7 @@ fn observed(c: &Config, which: usize, only: Option<(usize, usize, usize)>) -> Do
     d
 }
 
-fn make_case(c: &Config, which: usize, only: Option<(usize, usize, usize)>, h: History, label: String) -> Case {
+pub fn make_case(c: &Config, which: usize, only: Option<(usize, usize, usize)>, h: History, label: String) -> Case {
     let mut files = support_files(c);
     files.push(ProjFile::from_doc("obs", observed(c, which, only)));
     let oi = files.len() - 1;
@@ -157,7 +157,7 @@ pub fn check_case(case: &Case) -> CheckResult {
     r
 }
 
-fn configs(tier: Tier) -> Vec<Config> {
+pub fn configs(tier: Tier) -> Vec<Config> {
     let mut v = Vec::new();
     for imports in import_sets() {
         for decls in 0..8 {
